@@ -419,29 +419,43 @@ def observe(cases):
 
 
 # ------------------------------------------------------------------------------------------------ Gallina printing
+# Frequent strings (key segments, class paths, words) and the class table are defined ONCE in the header of every generated
+# cases file and referenced by name in the case terms: a 400-case shard then needs ~4x less memory and time in coqc than
+# with every string spelled out as a list of code points.
+_POOL_STRINGS = (["a", "b", "t", "u", "w", "g", "h", "x", "y", "z", "c", "d", "cs", "p", "q", "r", "l", "nope",
+                  "init_args", "class_path", "zz", "<bool>", "<other>"] + WORDS + ["c15mod." + n for n in CLASSES])
+_POOL = {}
+for _i, _s in enumerate(dict.fromkeys(_POOL_STRINGS)):
+    _POOL[_s] = "c15s%d" % _i
+
+
+def gs(s):
+    return _POOL.get(s) or g_str(s)
+
+
 def g_key(k):
-    return g_list([g_str(s) for s in k.split(".")], "str")
+    return g_list([gs(s) for s in k.split(".")], "str")
 
 
 def g_val(v):
     if v is None:
         return "VNone"
     if isinstance(v, bool):
-        return "(VStr %s)" % g_str("<bool>")
+        return "(VStr %s)" % gs("<bool>")
     if isinstance(v, int):
         return "(VInt (%d)%%Z)" % v
     if isinstance(v, str):
-        return "(VStr %s)" % g_str(v)
+        return "(VStr %s)" % gs(v)
     if isinstance(v, list):
         return "(VList %s)" % g_list([g_val(x) for x in v], "val")
     if isinstance(v, dict):
         if "__map__" in v:
             items = v["__map__"]
         elif "__other__" in v:
-            return "(VStr %s)" % g_str("<other>")
+            return "(VStr %s)" % gs("<other>")
         else:
             items = list(v.items())
-        return "(VMap %s)" % g_list(["(%s, %s)" % (g_str(k), g_val(x)) for k, x in items], "(str * val)")
+        return "(VMap %s)" % g_list(["(%s, %s)" % (gs(k), g_val(x)) for k, x in items], "(str * val)")
     raise ValueError(v)
 
 
@@ -457,8 +471,8 @@ def g_decl(d):
 def g_classes():
     out = []
     for name, params in CLASSES.items():
-        ps = ["(%s, %s, %s)" % (g_str(pn), G_TY[pt], g_opt(None if pd == REQ else g_val(pd))) for pn, pt, pd in params]
-        out.append("{| c_name := %s; c_params := %s |}" % (g_str("c15mod." + name), g_list(ps, "(str * ty * option val)")))
+        ps = ["(%s, %s, %s)" % (gs(pn), G_TY[pt], g_opt(None if pd == REQ else g_val(pd))) for pn, pt, pd in params]
+        out.append("{| c_name := %s; c_params := %s |}" % (gs("c15mod." + name), g_list(ps, "(str * ty * option val)")))
     return g_list(out, "cls")
 
 
@@ -470,13 +484,12 @@ def g_pres(r):
     return {"linked": "PLinked", "rejected": "PRejected"}.get(r[0], "PCrash")
 
 
-_CLASSES_TERM = None
+_CLASSES_TERM = "c15classes"
+IMPORTS = (IMPORTS + "\n" + "\n".join("Definition %s : str := %s." % (n, g_str(t)) for t, n in _POOL.items())
+           + "\nDefinition c15classes : list cls := %s." % g_classes())
 
 
 def term(case, obs):
-    global _CLASSES_TERM
-    if _CLASSES_TERM is None:
-        _CLASSES_TERM = g_classes()
     links = ["{| l_src := %s; l_tgt := %s; l_fn := %s |}" % (
         g_list([g_key(s) for s in l["src"]], "key"), g_key(l["tgt"]), g_opt(None if l["fn"] is None else g_nat(l["fn"])))
         for l in case["links"]]
